@@ -36,17 +36,23 @@
         prevote set of `lockedRound` reports +2/3 for the locked block - a lock is taken or renewed
         only on that majority, and with L2 (`doPrevote` prevotes the locked block) every prevote
         cast under a lock is for a block that had a polka in the lock's round.
-  PARTIAL (named): L2/L3/L5 (prevote and proposal follow the lock; the lock is released only by a
-  later polka) hold for every state and argument, reachable or not, so they hold along every run;
-  their lift to a ghost history ("the lock held at round r was taken on a polka and no later polka
-  released it") is not mechanised and is checked on every run by the Go-side monitor of the c04
-  engine against the real node.
+    L10 the locking rule over the node's history (Lemmas/NodeA3.lean), the statement of C04's first
+        sentence: if the node has signed a precommit for block b in round r and LATER signs a
+        prevote for something else in a round r' > r of that height, then its own prevote sets
+        report +2/3 for something other than b in a round r'' with r < r'' ≤ r' - in every state
+        of every run from a fresh node whose timeouts are scheduled ones. (`signed` is in signing
+        order, so "later" is a position in it; the polka is in the node's vote sets from the
+        moment of signing on.)  This is assumption A3 of the timed agreement theorem (C01).
+  PARTIAL (named): L3 (the proposer proposes its locked block) is transition-local only; runs that
+  contain a crash and a WAL replay are covered by C07's replay theorems plus the c07 engine, not by
+  these run invariants (the ghost history does not survive `Wal.restart`).
 -/
 import AnnVerif.Model.Node
 import AnnVerif.Lemmas.NodeMono
 import AnnVerif.Lemmas.NodeJust
 import AnnVerif.Lemmas.NodeSched
 import AnnVerif.Lemmas.NodeLock
+import AnnVerif.Lemmas.NodeA3
 namespace AnnVerif.C04
 open AnnVerif AnnVerif.Node
 
@@ -337,5 +343,28 @@ example : LJ demo ∧ demo.lockedBlock = some [0x62] := by
   intro b hb
   exact ⟨bidOf [0x62], by decide, by have : demo.lockedBlock = some [0x62] := by decide
                                      rw [this] at hb; cases hb; rfl⟩
+
+/-! ### L10: the locking rule over the node's history -/
+
+theorem run_lock_rule (cfg : Cfg) (height : Int) (vals : ValSet.ValSet) (me : Option Nat) (skip : Bool)
+    (ins : List In) (hs : Scheduled (Node.init cfg height vals me skip) ins) :
+    A3Inv (ins.foldl stepIn (Node.init cfg height vals me skip)) :=
+  a3_run ins _ (init_a3 cfg height vals me skip)
+    (runOK_of_scheduled ins _ (init_sched cfg height vals me skip) hs)
+
+/-- what `A3Inv` says about two votes of the history, spelled out -/
+theorem lock_rule_spelled_out (n : Node) (inv : A3Inv n) (i j : Nat) (hij : i < j) (hj : j < n.signed.length)
+    (h1 : (n.signed[i]'(by omega)).type = 2) (h2 : (n.signed[i]'(by omega)).bid.hash.isEmpty = false)
+    (h3 : (n.signed[i]'(by omega)).height = n.height)
+    (h4 : (n.signed[j]).type = 1) (h5 : (n.signed[j]).height = n.height)
+    (h6 : (n.signed[i]'(by omega)).round < (n.signed[j]).round)
+    (h7 : (n.signed[j]).bid.hash ≠ (n.signed[i]'(by omega)).bid.hash) :
+    ∃ r'' bid'', (n.signed[i]'(by omega)).round < r'' ∧ r'' ≤ (n.signed[j]).round ∧
+      maj23 (prevotes n r'') = some bid'' ∧ bid''.hash ≠ (n.signed[i]'(by omega)).bid.hash :=
+  inv.g3 i j hij hj ⟨h1, h2, h3⟩ h4 h5 h6 h7
+
+/-- inductive from any state that satisfies the invariant -/
+theorem step_keeps_lock_rule (n : Node) (inp : In) (i : A3Inv n) (hw : WellTimed n inp) : A3Inv (stepIn n inp) :=
+  a3_stepIn n inp i hw
 
 end AnnVerif.C04
